@@ -107,7 +107,14 @@ def _mk_mortar(dim, n, sides):
     sg = {MortarSides.LEFT_SIDE: _mk_grid(dim, n, True)}
     if sides == 2:
         sg[MortarSides.RIGHT_SIDE] = _mk_grid(dim, n, True)
-    return pp.MortarGrid(dim, sg, codim=1)
+
+    class _Mortar(pp.MortarGrid):
+        # the harness builds mortar grids without projections (irrelevant to the equation bookkeeping); the stock
+        # __repr__ needs them, and the error messages of the code under test print grids
+        def __repr__(self):
+            return f"<mortar grid {self.id}>"
+
+    return _Mortar(dim, sg, codim=1)
 
 
 def _state(n, slot):
@@ -151,7 +158,7 @@ class World:
         self.es = pp.ad.EquationSystem(self.mdg)
         self.atoms = []  # atomic variables in creation order
         for v in case["vars"]:
-            dof = {k: m for k, m in zip(("cells", "faces", "nodes"), v["dof"]) if not (m == 0 and k in v.get("omit", []))}
+            dof = {k: m for k, m in zip(("cells", "faces", "nodes"), v["dof"]) if m > 0 or k == "cells"}
             grids = [self.objs[k] for k in v["grids"]]
             md = self.es.create_variables(f"v{v['name']}", dof, **({"subdomains": grids} if v["on"] == "sub" else {"interfaces": grids}))
             self.atoms += list(md.sub_vars)
@@ -540,7 +547,6 @@ def oracle(case):
         M = _dense(rec["A"])
         want = _dense(Af[rows][:, cols]) if rows and cols else np.zeros((len(rows), len(cols)))
         if M.shape != want.shape or not np.array_equal(M, want):
-            which = "cols" if M.shape[0] == want.shape[0] and np.array_equal(_dense(rec["A"]) if op["vars"] is None else M[:, :0], want[:, :0]) and op["vars"] is not None else "rows"
             return {"what": f"op {j} ({form}): Jacobian of shape {M.shape} is not full[rows={rows}][:, cols={cols}] (shape {want.shape})",
                     "key": f"jacobian-not-slice:{form}:{'allvars' if op['vars'] is None else 'subvars'}"}
         # ---- reported indices: equations in set order, consecutive ranges
@@ -597,7 +603,8 @@ def _gen_vars(rng, grids):
             continue
         gl = rng.sample(pool, rng.randint(1, len(pool)))
         used.update((name, g) for g in gl)
-        out.append({"name": name, "dof": _mult(rng), "on": "intf" if on_intf else "sub", "grids": gl})
+        dof = _mult(rng)
+        out.append({"name": name, "dof": [dof[0], 0, 0] if on_intf else dof, "on": "intf" if on_intf else "sub", "grids": gl})
     if not out:
         out.append({"name": 0, "dof": [1, 0, 0], "on": "sub", "grids": subs[:1]})
     return out
